@@ -51,7 +51,7 @@ type edEnv struct {
 	tag     string // "edited": every period takes over at its own start block; "midflight": one does not (F27)
 }
 
-func newEdEnv(rng *Rng, out *Out) *edEnv {
+func newEdEnv(rng *Rng, out *Out, onePool bool) *edEnv {
 	sifapp.SetConfig(false)
 	e := &edEnv{app: sifapp.Setup(false), out: out, totals: map[string]*big.Int{}, total: big.NewInt(0)}
 	e.ctx = e.app.BaseApp.NewContext(false, tmproto.Header{Height: 1})
@@ -60,7 +60,7 @@ func newEdEnv(rng *Rng, out *Out) *edEnv {
 	e.app.AdminKeeper.SetAdminAccount(e.ctx, &admintypes.AdminAccount{AdminType: admintypes.AdminType_PMTPREWARDS, AdminAddress: e.admin.String()})
 	// one or two pools with depth, one provider each (so that both reward modes pay out)
 	for i, sym := range []string{"ceth", "cusdc"} {
-		if i == 1 && rng.Bool() {
+		if i == 1 && (onePool || rng.Bool()) {
 			break
 		}
 		asset := clptypes.NewAsset(sym)
@@ -170,7 +170,7 @@ func smallPeriod(rng *Rng, start uint64, minEnd uint64) *edPeriod {
 func directedMidflight(rng *Rng, out *Out) int {
 	n := 0
 	for _, which := range []int{0, 1} {
-		e := newEdEnv(rng, out)
+		e := newEdEnv(rng, out, false)
 		e.tag = "midflight"
 		out.Emit("rw.periods", "ok", "periods.empty", false)
 		out.Emit("rw.init "+e.app.ClpKeeper.GetBlockDistributionAccu(e.ctx).String(), "ok", "init", false)
@@ -196,11 +196,101 @@ func directedMidflight(rng *Rng, out *Out) int {
 	return n
 }
 
+// extreme period shapes (all accepted by MsgAddRewardPeriodRequest.ValidateBasic): lengths
+// 2^61 .. 2^64-1 (end = MaxInt64, MaxUint64, start + 4e18 - 1, …; start 0, 1, at or right after the
+// current height), allocations k*length + {-4..+4}, length +- small, near the 2^128-1 limit.  One
+// pool with multiplier 1, so that the whole block distribution is created and the per-block bound
+// floor(allocation/length)*mod — computed exactly by the Lean judge — is tight.  Only the first few
+// blocks of such a period run.
+func (e *edEnv) extreme(rng *Rng, h uint64, directed int) int {
+	e.tag = "extreme"
+	two := big.NewInt(2)
+	maxU64 := new(big.Int).Sub(new(big.Int).Exp(two, big.NewInt(64), nil), big.NewInt(1))
+	maxI64 := new(big.Int).Sub(new(big.Int).Exp(two, big.NewInt(63), nil), big.NewInt(1))
+	maxAlloc := new(big.Int).Sub(new(big.Int).Exp(two, big.NewInt(128), nil), big.NewInt(1))
+	start := []uint64{0, 1, h, h + 1}[rng.Intn(4)]
+	var end *big.Int
+	switch rng.Intn(6) {
+	case 0:
+		end = maxI64
+	case 1:
+		end = maxU64
+	case 2:
+		end = new(big.Int).Add(new(big.Int).SetUint64(start), new(big.Int).SetUint64(4000000000000000000-1))
+	case 3:
+		end = new(big.Int).Add(new(big.Int).SetUint64(start), new(big.Int).Exp(two, big.NewInt(61), nil))
+	default:
+		end = new(big.Int).Add(new(big.Int).SetUint64(start), rng.BigBits(62+rng.Intn(3)))
+	}
+	if end.Cmp(maxU64) > 0 {
+		end = maxU64
+	}
+	if start == 0 && end.Cmp(maxU64) == 0 {
+		start = 1 // [0, 2^64-1] has uint64 length 0 and is refused by ValidateBasic
+	}
+	length := new(big.Int).Sub(end, new(big.Int).SetUint64(start))
+	length.Add(length, big.NewInt(1))
+	kmax := new(big.Int).Div(maxAlloc, length)
+	var k *big.Int
+	switch rng.Intn(4) {
+	case 0:
+		k = big.NewInt(1)
+	case 1:
+		k = big.NewInt(int64(2 + rng.Intn(100)))
+	case 2:
+		k = new(big.Int).Set(kmax)
+	default:
+		k = new(big.Int).Mod(rng.BigBits(70), new(big.Int).Add(kmax, big.NewInt(1)))
+	}
+	if k.Sign() == 0 {
+		k = big.NewInt(1)
+	}
+	alloc := new(big.Int).Mul(k, length)
+	alloc.Add(alloc, big.NewInt(int64(rng.Intn(9)-4)))
+	if rng.Chance(1, 8) {
+		alloc = new(big.Int).Sub(maxAlloc, big.NewInt(int64(rng.Intn(5))))
+	}
+	mod := uint64(1 + rng.Intn(3))
+	switch directed {
+	case 1: // the seeded demo: 4e18 blocks, one unit short of 50 per block
+		start, mod = 10, 1
+		end = new(big.Int).SetUint64(10 + 4000000000000000000 - 1)
+		alloc = new(big.Int).Sub(new(big.Int).Mul(big.NewInt(50), big.NewInt(4000000000000000000)), big.NewInt(1))
+	case 2: // open ended: [10, MaxInt64], three units short of 7 per block
+		start, mod = 10, 2
+		end = maxI64
+		l := new(big.Int).Sub(maxI64, big.NewInt(9))
+		alloc = new(big.Int).Sub(new(big.Int).Mul(big.NewInt(7), l), big.NewInt(3))
+	}
+	if alloc.Sign() <= 0 || alloc.Cmp(maxAlloc) > 0 {
+		alloc = new(big.Int).Set(length)
+	}
+	e.out.Emit("rw.periods", "ok", "periods.empty", false)
+	e.out.Emit("rw.init "+e.app.ClpKeeper.GetBlockDistributionAccu(e.ctx).String(), "ok", "init", false)
+	e.edit(h, []*edPeriod{{start: start, end: end.Uint64(), mod: mod, alloc: alloc}})
+	n := 0
+	lastBlock := h + 5
+	if start > h {
+		lastBlock = start + 5
+	}
+	for ; h <= lastBlock; h++ {
+		e.block(h, "end.extreme")
+		n++
+	}
+	return n
+}
+
 func init() {
 	families["rwedits"] = func(rng *Rng, n int, out *Out, replay string) {
 		blocks := directedMidflight(rng, out)
+		blocks += newEdEnv(rng, out, true).extreme(rng, 9, 1)
+		blocks += newEdEnv(rng, out, true).extreme(rng, 9, 2)
 		for blocks < n {
-			e := newEdEnv(rng, out)
+			if rng.Chance(1, 3) {
+				blocks += newEdEnv(rng, out, true).extreme(rng, uint64(2+rng.Intn(20)), 0)
+				continue
+			}
+			e := newEdEnv(rng, out, false)
 			h := uint64(2 + rng.Intn(20))
 			// the running period A: mod >= 2, several distribution cycles long, a sizeable per-block share
 			modA := uint64(2 + rng.Intn(9))
